@@ -3,3 +3,5 @@ import Props.C01
 import Props.C07
 import Props.C10
 import Props.C20
+import Props.C02
+import Props.C03
